@@ -387,6 +387,10 @@ def parse_cbmc(out):
     if ss: r['solver_s'] = round(sum(ss), 3)
     m = re.search(r'Runtime Symex: ([0-9.e+-]+)s', out)
     if m: r['symex_s'] = round(float(m.group(1)), 3)
+    m = re.search(r'size of program expression: (\d+) steps', out)
+    r['ssa_steps'] = int(m.group(1)) if m else None
+    m = re.search(r'Generated (\d+) VCC\(s\), (\d+) remaining after simplification', out)
+    r['vccs'], r['vccs_nontrivial'] = (int(m.group(1)), int(m.group(2))) if m else (None, None)
     res_start = out.find('** Results:')
     body = out[res_start:] if res_start >= 0 else out
     r['nprops'] = len(re.findall(r'^\[[^\]]+\] .*: (?:SUCCESS|FAILURE)$', body, re.M))
@@ -558,7 +562,8 @@ def check(prop, tier, only=None, keep=False, seed=0):
                    'unwind': o['unwind'], 'unwind_fn': o.get('unwind_fn', {}), 'in_bytes': o['in'], 'known_classes_excluded': o['_known_classes']}
             r = run_race(o, d, int(os.environ.get('VERIF_CAP', o['cap_s'])))
             res.update({'backend': r.get('backend'), 'solver_s': r.get('solver_s'), 'symex_s': r.get('symex_s'), 'wall_s': r.get('wall_s'),
-                        'vars': r.get('vars'), 'clauses': r.get('clauses'), 'cbmc_properties': r.get('nprops')})
+                        'vars': r.get('vars'), 'clauses': r.get('clauses'), 'cbmc_properties': r.get('nprops'),
+                        'ssa_steps': r.get('ssa_steps'), 'vccs': r.get('vccs'), 'vccs_nontrivial': r.get('vccs_nontrivial')})
             if r['verdict'] is None:
                 res['status'] = 'engine_error'; res['witness_reachable'] = False
                 res['error'] = ('time-out after %ss' % o['cap_s']) if r.get('timeout') else 'no verdict: ' + json.dumps(r.get('tails'))[-1500:]
@@ -636,6 +641,14 @@ def check(prop, tier, only=None, keep=False, seed=0):
         'property_id': prop, 'tier': tier, 'seed': seed, 'level': 'model_checking',
         'coverage': {
             'obligations': len(results), 'discharged': disch,
+            # model-checking keys, all measured on this run from CBMC's statistics of the winning back end of each obligation
+            'states': max(1, sum((r.get('ssa_steps') or 0) for r in results)),
+            'transitions': max(1, sum((r.get('vccs') or 0) for r in results)),
+            'traces_validated_against_impl': sum(t['inputs'] for t in tvs) + sum(1 for r in results if (r.get('cex') or {}).get('native')),
+            'explanation': 'states = SSA steps of the symbolic execution summed over the obligations (each step is one symbolic program state standing for '
+                           'all inputs within the bound); transitions = verification conditions generated from them (guarded assertion instances handed to '
+                           'the solver); traces_validated_against_impl = inputs (repo test vectors + pseudo-random) executed on BOTH the native g++ build of the '
+                           'real code and the native build of the generated C with identical results, plus counterexamples replayed on the real build',
             'evaluations': sum((r.get('cbmc_properties') or 1) for r in results) + sum(t['inputs'] for t in tvs),
             'distinct_nontrivial': sum(1 for r in results if r.get('witness_reachable')),
             'rule': 'one evaluation = one property decided by the solver inside an obligation (the harness PROPERTY assertion, the WITNESS assertion, '
